@@ -180,9 +180,12 @@ def make_store(root, cfg=None, real_primitives=False, mp_mode=False):
     shims (sched.py): semantics are unchanged for single-threaded use, but a call that would WAIT (on an
     identifier some earlier call left locked) raises sched.WouldBlockForever instead of hanging the harness."""
     cfg = cfg or Cfg()
-    if real_primitives:
-        return hs().FileHashStore(cfg.props(root))
     from . import sched
+    sched.install_dispatch()
+    if real_primitives:
+        sched.set_mode("real")
+        return hs().FileHashStore(cfg.props(root))
+    sched.set_mode("shim")
     with sched.shimmed_primitives(mp_mode=mp_mode):
         store = hs().FileHashStore(cfg.props(root))
     if bool(getattr(store, "use_multiprocessing", mp_mode)) != bool(mp_mode):
